@@ -242,16 +242,19 @@ def process (s : St) (cn : Conn) : St × Bool × List Ev :=
 
 def mergeFault (a b : Option Fault) : Option Fault := if a.isSome then a else b
 
+/-- `if (NULL != response) MHD_destroy_response (response)` -/
+def releaseOpt (R : RespTab) : Option Nat → RespTab × List Ev
+  | some r => release R r
+  | none => (R, [])
+
 /-- one iteration of the loop of MHD_cleanup_connections -/
 def cleanupOne (s : St) (c : Conn) : St × List Ev :=
   let s1 := ipDel s c.addr
-  let (R, e) := match c.resp with
-    | some r => release { tab := s1.resps, fault := none } r
-    | none => ({ tab := s1.resps, fault := none }, [])
-  let s2 := { s1 with resps := R.tab, fault := mergeFault s1.fault R.fault }
+  let q := releaseOpt { tab := s1.resps, fault := none } c.resp
+  let s2 := { s1 with resps := q.1.tab, fault := mergeFault s1.fault q.1.fault }
   let s3 := if s2.connections = 0 then { s2 with fault := mergeFault s2.fault (some .connUnderflow) }
             else { s2 with connections := s2.connections - 1 }
-  (s3, [.connClose c.id] ++ e ++ [.fdClose c.id])
+  (s3, [.connClose c.id] ++ q.2 ++ [.fdClose c.id])
 
 def cleanupList : St → List Conn → St × List Ev
   | s, [] => (s, [])
@@ -461,7 +464,7 @@ def stop (s : St) : St × List Ev :=
   let r1 := closeNewList { s0 with newL := [] } s0.newL.reverse
   let r2 := forceResume r1.1.cfg.allowSuspend r1.1
   if stopPanics r2.1 then
-    ({ r2.1 with fault := mergeFault r2.1.fault (some .stopSuspended) }, r1.2 ++ r2.2 ++ [.panic .stopSuspended])
+    ({ r2.1 with fault := some .stopSuspended }, r1.2 ++ r2.2 ++ [.panic .stopSuspended])
   else
     let r3 := stopTail r2.1
     (r3.1, r1.2 ++ r2.2 ++ r3.2)
